@@ -67,6 +67,7 @@ impl std::error::Error for SparseVectorError {}
 /// assert_eq!(sparse.get(0), 0.0); // Contextual zero (in shell, not stored)
 /// ```
 #[derive(Debug, Clone, PartialEq, Serialize, Deserialize)]
+#[serde(try_from = "SparseVectorWire")]
 pub struct SparseVector {
     /// Total dimension - the boundary/shell of the vector space
     dimension: usize,
@@ -74,6 +75,55 @@ pub struct SparseVector {
     positions: Vec<u32>,
     /// Non-zero values (parallel to positions)
     values: Vec<f32>,
+}
+
+/// Wire form of [`SparseVector`]: decoded bytes are untrusted, so the invariants the methods
+/// rely on (dimension limit, parallel arrays, strictly increasing in-range positions) are
+/// checked before a `SparseVector` exists.
+#[derive(Deserialize)]
+#[serde(rename = "SparseVector")]
+struct SparseVectorWire {
+    dimension: usize,
+    positions: Vec<u32>,
+    values: Vec<f32>,
+}
+
+impl TryFrom<SparseVectorWire> for SparseVector {
+    type Error = String;
+
+    fn try_from(wire: SparseVectorWire) -> Result<Self, Self::Error> {
+        if wire.dimension > MAX_DIMENSION {
+            return Err(format!(
+                "dimension {} exceeds maximum {MAX_DIMENSION}",
+                wire.dimension
+            ));
+        }
+        if wire.positions.len() != wire.values.len() {
+            return Err(format!(
+                "{} positions but {} values",
+                wire.positions.len(),
+                wire.values.len()
+            ));
+        }
+        let mut previous: Option<u32> = None;
+        for &position in &wire.positions {
+            if position as usize >= wire.dimension {
+                return Err(format!(
+                    "position {position} out of bounds for dimension {}",
+                    wire.dimension
+                ));
+            }
+            if previous.is_some_and(|p| p >= position) {
+                return Err("positions not strictly increasing".to_string());
+            }
+            previous = Some(position);
+        }
+        Ok(Self {
+            dimension: wire.dimension,
+            positions: wire.positions,
+            values: wire.values,
+        })
+    }
 }
 
 impl SparseVector {
